@@ -41,15 +41,17 @@ type Answer struct {
 	ReadErrAt    int      `json:"read_err_at,omitempty"` // >0: the body reader fails after that many bytes
 	TransportErr bool     `json:"transport_err,omitempty"`
 	Shape        string   `json:"shape,omitempty"`
+	Hdr          []KV     `json:"hdr,omitempty"`   // response header lines set last (placeholders); the value {absent} removes the header (e.g. the Location a correct end-session answer carries)
 	After        int      `json:"after,omitempty"` // the first After requests to this endpoint are answered correctly, this answer applies from then on (chains: code exchange fine, refresh hostile)
 }
 
 type CliCase struct {
-	Op      string    `json:"op"`
-	Variant int       `json:"variant,omitempty"`
-	Answers []Answer  `json:"answers,omitempty"`
-	Toks    []TokSpec `json:"toks,omitempty"`
-	Pending []string  `json:"pending,omitempty"` // device_flow: error codes (status 400) with which the token endpoint answers the first polls, before its Answer / the correct document
+	Op      string            `json:"op"`
+	Variant int               `json:"variant,omitempty"`
+	Answers []Answer          `json:"answers,omitempty"`
+	Toks    []TokSpec         `json:"toks,omitempty"`
+	Args    map[string]string `json:"args,omitempty"`    // arguments the caller hands to the helper(s) (placeholders); a name that is absent = the fixed default argument
+	Pending []string          `json:"pending,omitempty"` // device_flow: error codes (status 400) with which the token endpoint answers the first polls, before its Answer / the correct document
 }
 
 const (
@@ -128,6 +130,7 @@ type fakeProvider struct {
 	last200 map[string][]byte // bodies served with 200, per endpoint
 	perEP   map[string]int    // requests so far, per endpoint
 	pending []string
+	maxReqs int // requests served per case before the provider refuses (0 = 40); sessions run several calls per case
 }
 
 func (f *fakeProvider) validBody(ep string) (string, string) {
@@ -153,7 +156,7 @@ func (f *fakeProvider) RoundTrip(req *http.Request) (*http.Response, error) {
 	if err := req.Context().Err(); err != nil {
 		return nil, err // as every real transport does
 	}
-	if f.calls > 40 {
+	if max := f.maxReqs; (max == 0 && f.calls > 40) || (max > 0 && f.calls > max) {
 		return nil, errors.New("fake provider: too many requests in one case")
 	}
 	ep := "other"
@@ -215,6 +218,15 @@ func (f *fakeProvider) RoundTrip(req *http.Request) (*http.Response, error) {
 	}
 	if ct != "" {
 		hdr.Set("Content-Type", ct)
+	}
+	if custom {
+		for _, kv := range ans.Hdr {
+			if kv.V == "{absent}" {
+				hdr.Del(kv.K)
+			} else {
+				hdr.Set(kv.K, expand(kv.V, f.env, f.now))
+			}
+		}
 	}
 	if status == 200 {
 		f.last200[ep] = raw
@@ -297,13 +309,154 @@ func genAnswer(t *rapid.T, ep, label string) Answer {
 		a.Muts, shape = genDocMuts(t, kind, 3, label+"m")
 		a.Shape = "muts:" + shape
 	}
-	if a.Status >= 300 && a.Status < 400 {
-		a.Location = rapid.SampledFrom([]string{"", "https://op.test/token", "https://op.test/.well-known/openid-configuration", "https://elsewhere.test/", "/userinfo", "://", "https://op.test/loop", "{xff}", "https://rp.test/out?state=st"}).Draw(t, label+"loc")
+	// response headers are part of the answer. Location: on every redirect status, on every answer of the endpoints whose helpers read it
+	// or block redirects (end_session, revoke), now and then elsewhere: kept as the correct answer has it / absent / empty / relative /
+	// unparsable / other host / the post-logout URI with the right, another or no state
+	if (a.Status >= 300 && a.Status < 400) || ep == "end_session" || ep == "revoke" || rapid.IntRange(0, 9).Draw(t, label+"locq") == 9 {
+		if loc := rapid.SampledFrom(locationValues).Draw(t, label+"loc"); loc != "{keep}" {
+			a.Hdr = append(a.Hdr, KV{K: "Location", V: loc})
+		}
 	}
 	if rapid.IntRange(0, 5).Draw(t, label+"ctq") == 5 {
 		a.CT = rapid.SampledFrom([]string{"text/html", "application/jwt", "application/json; charset=utf-16", "text/plain", "application/x-www-form-urlencoded", "{xff}"}).Draw(t, label+"ct")
 	}
+	if rapid.IntRange(0, 9).Draw(t, label+"hdrq") == 9 {
+		a.Hdr = append(a.Hdr, rapid.SampledFrom(otherHeaders).Draw(t, label+"hdr"))
+	}
 	return a
+}
+
+var locationValues = []string{
+	"{keep}", "{keep}", "{absent}", "{absent}", "{absent}", "", "/userinfo", "relative", "://", "%zz", "http://[::1", "{xff}", "https://elsewhere.test/", "https://op.test/loop", "https://op.test/token",
+	"https://op.test/.well-known/openid-configuration", "https://rp.test/out?state=st", "https://rp.test/out", "https://rp.test/out?state=other", "https://rp.test/out?state=%zz", "https://rp.test/logged-out?state=st",
+	"https://rp.test/out#state=st", "{cr}{lf}", "https://rp.test/{big70000}",
+}
+
+var otherHeaders = []KV{
+	{K: "Content-Type", V: "{absent}"}, {K: "Content-Type", V: ""}, {K: "Content-Type", V: ";"}, {K: "Content-Type", V: "application/json;charset"}, {K: "Content-Encoding", V: "gzip"},
+	{K: "WWW-Authenticate", V: `Bearer error="invalid_token"`}, {K: "Retry-After", V: "-1"}, {K: "Retry-After", V: "{big300}"}, {K: "Content-Length", V: "5"}, {K: "Cache-Control", V: "no-store"},
+	{K: "Refresh", V: "0; url=https://elsewhere.test/"}, {K: "Set-Cookie", V: "a=b; Path=/"},
+}
+
+// ---- arguments of the helpers ---------------------------------------------------------
+//
+// What the caller hands in is generated as well (valid UTF-8 strings, empty ones included: what real callers pass), per helper:
+// codes, tokens, token types, subjects, scopes, redirect URIs, states, hints, extra parameters, the query of the callback request.
+
+var (
+	argStrings = []string{"", "x", "a b", "é世", "a&b=c", "%zz", "a+b/c=", "null", "{big70000}", " "}
+	argURIs    = []string{"", "https://rp.test/out", "://", "/relative", "%zz", "https://rp.test/out?x=1", "https://rp.test/out#f", "https://rp.test/logged-out", "https://rp.test:99999/", "rp.test/out", "https://user@rp.test/out"}
+	argStates  = []string{"", "st", "other", "a b&c", "{big300}"}
+	argScopes  = []string{"", "openid", "openid profile", "openid  offline_access", "a", " "}
+	argTypes   = []string{"", "Bearer", "bearer", "DPoP", "urn:ietf:params:oauth:token-type:access_token", "urn:ietf:params:oauth:token-type:id_token", "urn:ietf:params:oauth:token-type:refresh_token", "x"}
+	argHints   = []string{"", "access_token", "refresh_token", "id_token", "x"}
+	argIDToks  = []string{"", "{idt}", "e30.e30.e30", "e30.bnVsbA.e30", "x"}
+	argParams  = []string{"", "x=y", "x=y&x=z", "grant_type=other", "scope=a&client_id=b", "audience=%zz"}
+	argQueries = []string{"code=the-code&state=st", "code=&state=st", "state=st", "error=access_denied&error_description=no&state=st", "code=the-code", "", "code=a&code=b&state=st", "error=&code=x", "code=the-code&state=st&error_description=x", "code=%zz"}
+)
+
+// argPool: the values an argument name is drawn from.
+func argPool(name string) []string {
+	switch name {
+	case "post_logout_redirect_uri", "rp_redirect_uri":
+		return argURIs
+	case "state":
+		return argStates
+	case "scopes", "rp_scopes":
+		return argScopes
+	case "token_type", "subject_token_type", "actor_token_type", "requested_token_type", "client_assertion_type":
+		return argTypes
+	case "token_type_hint":
+		return argHints
+	case "id_token_hint":
+		return argIDToks
+	case "cc_params":
+		return argParams
+	case "cb_query":
+		return argQueries
+	}
+	return argStrings
+}
+
+var rpArgs = []string{"rp_redirect_uri", "rp_scopes"}
+
+// opArgs: the argument names of every helper / chain / session call.
+var opArgs = map[string][]string{
+	"new_rp":               rpArgs,
+	"code_exchange":        append([]string{"code", "verifier"}, rpArgs...),
+	"refresh":              append([]string{"refresh_token", "client_assertion", "client_assertion_type"}, rpArgs...),
+	"userinfo":             append([]string{"access_token", "token_type", "subject"}, rpArgs...),
+	"client_credentials":   append([]string{"cc_params"}, rpArgs...),
+	"introspect":           {"access_token"},
+	"device_authorization": append([]string{"scopes"}, rpArgs...),
+	"device_token":         {"device_code"},
+	"token_exchange":       {"subject_token", "subject_token_type", "actor_token", "actor_token_type", "resource", "audience", "scopes", "requested_token_type"},
+	"end_session":          append([]string{"id_token_hint", "post_logout_redirect_uri", "state"}, rpArgs...),
+	"revoke":               append([]string{"token", "token_type_hint"}, rpArgs...),
+	"profile":              {"scopes"},
+	"jwt_profile_exchange": {"assertion", "scopes"},
+	"callback_handler":     append([]string{"cb_query"}, rpArgs...),
+	"device_flow":          append([]string{"scopes"}, rpArgs...),
+	"code_flow":            append([]string{"code", "post_logout_redirect_uri", "state", "token_type_hint"}, rpArgs...),
+	"cc_flow":              append([]string{"cc_params", "token_type_hint"}, rpArgs...),
+	"refresh_flow":         append([]string{"refresh_token"}, rpArgs...),
+	// session calls (seq_test.go)
+	"callback": {"cb_query"}, "token": nil, "exchange": {"subject_token", "subject_token_type", "actor_token", "actor_token_type", "resource", "audience", "scopes", "requested_token_type"},
+	"introspect_value": {"access_token"},
+}
+
+// genArgs draws the arguments of op: each one keeps its fixed default every second time.
+func genArgs(t *rapid.T, op, label string) map[string]string {
+	var args map[string]string
+	for _, name := range opArgs[op] {
+		if rapid.Bool().Draw(t, label+"argq-"+name) {
+			continue
+		}
+		if args == nil {
+			args = map[string]string{}
+		}
+		args[name] = rapid.SampledFrom(argPool(name)).Draw(t, label+"arg-"+name)
+	}
+	return args
+}
+
+// argReader resolves the arguments of a case inside run.
+type argReader struct {
+	args map[string]string
+	env  map[string]string
+	now  time.Time
+}
+
+func (r argReader) str(name, def string) string {
+	if v, ok := r.args[name]; ok {
+		return expand(v, r.env, r.now)
+	}
+	return def
+}
+
+// list: a space-delimited argument ("" = nil slice)
+func (r argReader) list(name string, def []string) []string {
+	v, ok := r.args[name]
+	if !ok {
+		return def
+	}
+	if v == "" {
+		return nil
+	}
+	return strings.Split(v, " ")
+}
+
+// values: an argument in query syntax ("" = nil)
+func (r argReader) values(name string, def url.Values) url.Values {
+	v, ok := r.args[name]
+	if !ok {
+		return def
+	}
+	if v == "" {
+		return nil
+	}
+	out, _ := url.ParseQuery(v)
+	return out
 }
 
 // sparseAnswer: 200 with the correct document reduced to a random subset of its members and / or with zero, negative and
@@ -385,6 +538,7 @@ func genCliCase(t *rapid.T) CliCase {
 	var c CliCase
 	c.Op = rapid.SampledFrom(cliOps).Draw(t, "op")
 	c.Variant = rapid.IntRange(0, 3).Draw(t, "variant")
+	c.Args = genArgs(t, c.Op, "")
 	if contains(chainOps, c.Op) {
 		genChain(t, &c)
 		for _, a := range c.Answers {
@@ -450,6 +604,7 @@ func runCli(c CliCase, res *vkit.Result, h string) {
 	ctx := context.Background()
 	out := "?"
 	stage := "start"
+	ar := argReader{c.Args, env, now}
 	func() {
 		defer func() {
 			if p := recover(); p != nil {
@@ -482,7 +637,7 @@ func runCli(c CliCase, res *vkit.Result, h string) {
 			if c.Variant&2 == 2 {
 				opts = append(opts, rp.WithJWTProfile(rp.SignerFromKeyAndKeyID(vkit.Key("rsa1").PKCS1PEM(), "kid1")))
 			}
-			r, err := rp.NewRelyingPartyOIDC(ctx, cliIssuer, cliClient, cliSecret, "https://rp.test/cb", []string{"openid", "profile"}, opts...)
+			r, err := rp.NewRelyingPartyOIDC(ctx, cliIssuer, cliClient, cliSecret, ar.str("rp_redirect_uri", "https://rp.test/cb"), ar.list("rp_scopes", []string{"openid", "profile"}), opts...)
 			if err != nil {
 				out = "rp-construction-error"
 				return nil
@@ -522,27 +677,27 @@ func runCli(c CliCase, res *vkit.Result, h string) {
 				stage = "code_exchange"
 				var opts []rp.CodeExchangeOpt
 				if c.Variant&1 == 1 {
-					opts = append(opts, rp.WithCodeVerifier("verifier"))
+					opts = append(opts, rp.WithCodeVerifier(ar.str("verifier", "verifier")))
 				}
-				tk, err := rp.CodeExchange[*oidc.IDTokenClaims](ctx, "the-code", r, opts...)
+				tk, err := rp.CodeExchange[*oidc.IDTokenClaims](ctx, ar.str("code", "the-code"), r, opts...)
 				result(tk, tk == nil, err)
 			}
 		case "refresh":
 			if r := newRP(); r != nil {
 				stage = "refresh"
-				tk, err := rp.RefreshTokens[*oidc.IDTokenClaims](ctx, r, "rt-0", "", "")
+				tk, err := rp.RefreshTokens[*oidc.IDTokenClaims](ctx, r, ar.str("refresh_token", "rt-0"), ar.str("client_assertion", ""), ar.str("client_assertion_type", ""))
 				result(tk, tk == nil, err)
 			}
 		case "userinfo":
 			if r := newRP(); r != nil {
 				stage = "userinfo"
-				ui, err := rp.Userinfo[*oidc.UserInfo](ctx, "at-1", "Bearer", "u1", r)
+				ui, err := rp.Userinfo[*oidc.UserInfo](ctx, ar.str("access_token", "at-1"), ar.str("token_type", "Bearer"), ar.str("subject", "u1"), r)
 				result(ui, ui == nil, err)
 			}
 		case "client_credentials":
 			if r := newRP(); r != nil {
 				stage = "client_credentials"
-				tk, err := rp.ClientCredentials(ctx, r, url.Values{"x": {"y"}})
+				tk, err := rp.ClientCredentials(ctx, r, ar.values("cc_params", url.Values{"x": {"y"}}))
 				result(tk, tk == nil, err)
 			}
 		case "introspect":
@@ -559,10 +714,10 @@ func runCli(c CliCase, res *vkit.Result, h string) {
 				return
 			}
 			if c.Variant&2 == 2 {
-				_, err = rs.Introspect[oidc.IntrospectionResponse](ctx, rsrv, "at-1")
+				_, err = rs.Introspect[oidc.IntrospectionResponse](ctx, rsrv, ar.str("access_token", "at-1"))
 				result(nil, false, err)
 			} else {
-				ir, err := rs.Introspect[*oidc.IntrospectionResponse](ctx, rsrv, "at-1")
+				ir, err := rs.Introspect[*oidc.IntrospectionResponse](ctx, rsrv, ar.str("access_token", "at-1"))
 				result(ir, ir == nil, err)
 			}
 		case "keyset":
@@ -583,14 +738,14 @@ func runCli(c CliCase, res *vkit.Result, h string) {
 		case "device_authorization":
 			if r := newRP(); r != nil {
 				stage = "device_authorization"
-				d, err := rp.DeviceAuthorization(ctx, []string{"openid"}, r, nil)
+				d, err := rp.DeviceAuthorization(ctx, ar.list("scopes", []string{"openid"}), r, nil)
 				result(d, d == nil, err)
 			}
 		case "device_token":
 			stage = "device_token"
 			req := &client.DeviceAccessTokenRequest{
 				ClientCredentialsRequest: &oidc.ClientCredentialsRequest{ClientID: cliClient, ClientSecret: cliSecret},
-				DeviceAccessTokenRequest: oidc.DeviceAccessTokenRequest{GrantType: oidc.GrantTypeDeviceCode, DeviceCode: "dc-1"},
+				DeviceAccessTokenRequest: oidc.DeviceAccessTokenRequest{GrantType: oidc.GrantTypeDeviceCode, DeviceCode: ar.str("device_code", "dc-1")},
 			}
 			tk, err := client.CallDeviceAccessTokenEndpoint(ctx, req, tokenCaller{hc, cliIssuer + "/token"})
 			result(tk, tk == nil, err)
@@ -607,18 +762,20 @@ func runCli(c CliCase, res *vkit.Result, h string) {
 				out = "te-construction-error"
 				return
 			}
-			r, err := tokenexchange.ExchangeToken(ctx, te, "subject-token", oidc.AccessTokenType, "", "", nil, []string{"aud"}, []string{"openid"}, oidc.AccessTokenType)
+			r, err := tokenexchange.ExchangeToken(ctx, te, ar.str("subject_token", "subject-token"), oidc.TokenType(ar.str("subject_token_type", string(oidc.AccessTokenType))),
+				ar.str("actor_token", ""), oidc.TokenType(ar.str("actor_token_type", "")), ar.list("resource", nil), ar.list("audience", []string{"aud"}), ar.list("scopes", []string{"openid"}),
+				oidc.TokenType(ar.str("requested_token_type", string(oidc.AccessTokenType))))
 			result(r, r == nil, err)
 		case "end_session":
 			if r := newRP(); r != nil {
 				stage = "end_session"
-				u, err := rp.EndSession(ctx, r, env["idt"], "https://rp.test/out", "st")
+				u, err := rp.EndSession(ctx, r, ar.str("id_token_hint", env["idt"]), ar.str("post_logout_redirect_uri", "https://rp.test/out"), ar.str("state", "st"))
 				result(u, false, err) // (nil, nil) is documented: no Location
 			}
 		case "revoke":
 			if r := newRP(); r != nil {
 				stage = "revoke"
-				err := rp.RevokeToken(ctx, r, "at-1", "access_token")
+				err := rp.RevokeToken(ctx, r, ar.str("token", "at-1"), ar.str("token_type_hint", "access_token"))
 				result(nil, false, err)
 			}
 		case "profile":
@@ -626,9 +783,9 @@ func runCli(c CliCase, res *vkit.Result, h string) {
 			var ts profile.TokenSource
 			var err error
 			if c.Variant&1 == 1 {
-				ts, err = profile.NewJWTProfileTokenSource(ctx, cliIssuer, "svc", "kid1", vkit.Key("rsa1").PKCS1PEM(), []string{"openid"}, profile.WithHTTPClient(hc), profile.WithStaticTokenEndpoint(cliIssuer, cliIssuer+"/token"))
+				ts, err = profile.NewJWTProfileTokenSource(ctx, cliIssuer, "svc", "kid1", vkit.Key("rsa1").PKCS1PEM(), ar.list("scopes", []string{"openid"}), profile.WithHTTPClient(hc), profile.WithStaticTokenEndpoint(cliIssuer, cliIssuer+"/token"))
 			} else {
-				ts, err = profile.NewJWTProfileTokenSource(ctx, cliIssuer, "svc", "kid1", vkit.Key("rsa1").PKCS1PEM(), []string{"openid"}, profile.WithHTTPClient(hc))
+				ts, err = profile.NewJWTProfileTokenSource(ctx, cliIssuer, "svc", "kid1", vkit.Key("rsa1").PKCS1PEM(), ar.list("scopes", []string{"openid"}), profile.WithHTTPClient(hc))
 			}
 			if err != nil || ts == nil {
 				out = "profile-construction-error"
@@ -638,7 +795,7 @@ func runCli(c CliCase, res *vkit.Result, h string) {
 			result(tk, tk == nil, err)
 		case "jwt_profile_exchange":
 			stage = "jwt_profile_exchange"
-			tk, err := client.JWTProfileExchange(ctx, oidc.NewJWTProfileGrantRequest("e30.e30.e30", "openid"), tokenCaller{hc, cliIssuer + "/token"})
+			tk, err := client.JWTProfileExchange(ctx, oidc.NewJWTProfileGrantRequest(ar.str("assertion", "e30.e30.e30"), ar.list("scopes", []string{"openid"})...), tokenCaller{hc, cliIssuer + "/token"})
 			result(tk, tk == nil, err)
 		case "callback_handler":
 			if r := newRP(); r != nil {
@@ -657,7 +814,7 @@ func runCli(c CliCase, res *vkit.Result, h string) {
 					}, r)
 				}
 				w := httptest.NewRecorder()
-				h(w, httptest.NewRequest("GET", "https://rp.test/cb?code=the-code&state=st", nil))
+				h(w, httptest.NewRequest("GET", "https://rp.test/cb?"+ar.str("cb_query", "code=the-code&state=st"), nil))
 				if called {
 					out = "ok"
 				} else {
@@ -668,7 +825,7 @@ func runCli(c CliCase, res *vkit.Result, h string) {
 			// example/client/device: the device authorization response feeds the poll
 			if r := newRP(); r != nil {
 				stage = "device_authorization"
-				d, err := rp.DeviceAuthorization(ctx, []string{"openid"}, r, nil)
+				d, err := rp.DeviceAuthorization(ctx, ar.list("scopes", []string{"openid"}), r, nil)
 				step(d == nil, err)
 				if err == nil && d != nil {
 					stage = "device_access_token"
@@ -683,7 +840,7 @@ func runCli(c CliCase, res *vkit.Result, h string) {
 			// example/client/app: tokens of the code exchange feed userinfo, refresh, revocation and logout
 			if r := newRP(); r != nil {
 				stage = "code_exchange"
-				tk, err := rp.CodeExchange[*oidc.IDTokenClaims](ctx, "the-code", r)
+				tk, err := rp.CodeExchange[*oidc.IDTokenClaims](ctx, ar.str("code", "the-code"), r)
 				step(tk == nil, err)
 				if err == nil && tk != nil && tk.Token != nil {
 					sub := ""
@@ -707,9 +864,9 @@ func runCli(c CliCase, res *vkit.Result, h string) {
 						step(ui == nil, err)
 					}
 					stage = "revoke"
-					step(false, rp.RevokeToken(ctx, r, rt, "refresh_token"))
+					step(false, rp.RevokeToken(ctx, r, rt, ar.str("token_type_hint", "refresh_token")))
 					stage = "end_session"
-					_, err = rp.EndSession(ctx, r, idt, "https://rp.test/out", "st")
+					_, err = rp.EndSession(ctx, r, idt, ar.str("post_logout_redirect_uri", "https://rp.test/out"), ar.str("state", "st"))
 					step(false, err)
 				}
 			}
@@ -717,7 +874,7 @@ func runCli(c CliCase, res *vkit.Result, h string) {
 			// a service: the client_credentials token feeds userinfo, introspection (resource server side) and revocation
 			if r := newRP(); r != nil {
 				stage = "client_credentials"
-				tk, err := rp.ClientCredentials(ctx, r, nil)
+				tk, err := rp.ClientCredentials(ctx, r, ar.values("cc_params", nil))
 				step(tk == nil, err)
 				if err == nil && tk != nil {
 					stage = "userinfo"
@@ -732,13 +889,13 @@ func runCli(c CliCase, res *vkit.Result, h string) {
 						step(ir == nil, err)
 					}
 					stage = "revoke"
-					step(false, rp.RevokeToken(ctx, r, tk.AccessToken, "access_token"))
+					step(false, rp.RevokeToken(ctx, r, tk.AccessToken, ar.str("token_type_hint", "access_token")))
 				}
 			}
 		case "refresh_flow":
 			// a long-running client: every refresh response feeds the next refresh and the userinfo call
 			if r := newRP(); r != nil {
-				rt, sub := "rt-0", "u1"
+				rt, sub := ar.str("refresh_token", "rt-0"), "u1"
 				for i := 0; i < 3; i++ {
 					stage = fmt.Sprintf("refresh%d", i+1)
 					nt, err := rp.RefreshTokens[*oidc.IDTokenClaims](ctx, r, rt, "", "")
@@ -762,6 +919,7 @@ func runCli(c CliCase, res *vkit.Result, h string) {
 	}()
 	_ = httphelper.DefaultHTTPClient // never used: every helper gets the in-process client
 	res.Label("fam:client", "cli:"+c.Op, "cli-out:"+c.Op+":"+out)
+	labelArgs(res, c.Args)
 	prim := primaryEP(c.Op)
 	shape := ""
 	for _, a := range c.Answers {
@@ -769,6 +927,7 @@ func runCli(c CliCase, res *vkit.Result, h string) {
 			shape = strings.SplitN(a.Shape, ":", 2)[0]
 			res.Label(fmt.Sprintf("cli-answer:%s:%d", shape, a.Status/100*100))
 		}
+		labelHdr(res, a, a.Status)
 	}
 	if out == "nil-without-error" {
 		// (nil, nil) is neither a result nor a returned error; the statement only names panics, so it is counted, not asserted
@@ -780,6 +939,46 @@ func runCli(c CliCase, res *vkit.Result, h string) {
 	}
 	res.Key = "client|" + c.Op + "|" + shape + "|" + h
 	res.Info = map[string]any{"outcome": out, "stage": stage, "requests": fp.seen}
+}
+
+// labelArgs: which arguments were generated, and whether empty.
+func labelArgs(res *vkit.Result, args map[string]string) {
+	if len(args) == 0 {
+		res.Label("cli-args:default")
+		return
+	}
+	res.Label("cli-args:generated")
+	for k, v := range args {
+		if v == "" {
+			res.Label("cli-arg:" + k + ":empty")
+		} else {
+			res.Label("cli-arg:" + k + ":value")
+		}
+	}
+}
+
+// headerClass labels the Location a generated answer carries.
+func labelHdr(res *vkit.Result, a Answer, status int) {
+	for _, kv := range a.Hdr {
+		if kv.K != "Location" {
+			res.Label("cli-hdr:" + kv.K)
+			continue
+		}
+		cls := "value"
+		switch {
+		case kv.V == "{absent}":
+			cls = "absent"
+		case kv.V == "":
+			cls = "empty"
+		case strings.HasPrefix(kv.V, "https://rp.test/"):
+			cls = "post-logout-uri"
+		case strings.HasPrefix(kv.V, "https://"):
+			cls = "other-url"
+		default:
+			cls = "relative-or-unparsable"
+		}
+		res.Label(fmt.Sprintf("cli-location:%s:%d", cls, status/100*100))
+	}
 }
 
 func intervalClass(n int) string {
@@ -812,12 +1011,21 @@ func describeAnswers(c CliCase, fp *fakeProvider) string {
 		if a.WholeB != nil {
 			body = fmt.Sprintf("%q", clip(string(a.WholeB), 120))
 		}
+		if len(a.Hdr) > 0 {
+			hb, _ := json.Marshal(a.Hdr)
+			body += " headers " + clip(string(hb), 200)
+		}
 		if a.After > 0 {
 			body += fmt.Sprintf(" (from request %d on)", a.After+1)
 		}
 		parts = append(parts, fmt.Sprintf("%s: status %d body %s", a.EP, a.Status, body))
 	}
-	return "[" + strings.Join(parts, "; ") + "] requests=" + strings.Join(fp.seen, ",")
+	args := ""
+	if len(c.Args) > 0 {
+		ab, _ := json.Marshal(c.Args)
+		args = " arguments=" + clip(string(ab), 300)
+	}
+	return "[" + strings.Join(parts, "; ") + "] requests=" + strings.Join(fp.seen, ",") + args
 }
 
 var _ = jose.ES256
